@@ -629,3 +629,613 @@ Proof.
     + destruct (IH _ _ _ _ _ _ _ H) as (evs2 & E2 & R2). rewrite E2.
       exists (evs1 ++ evs2). split; [reflexivity|]. rewrite run_events_app, R1. exact R2.
 Qed.
+
+(* ------------------------------------------------------------------ seekAndMux *)
+
+Definition seg_off (first : seg) (start_off start : Z) (g : gseg) : Z :=
+  match s_mtxi first, s_mtxi (g_seg g) with
+  | Some fm, Some mx => mx_dts mx - mx_dts fm + start_off
+  | _, _ => g_start g - start
+  end.
+
+(* events + the segments played after the first one, each with the offset of its time zero from the start *)
+Fixpoint ev_rest (first : seg) (start_off start duration : Z) (prev : seg) (seg_end_ : Z) (l : list gseg)
+  : option (list event * list (gseg * Z)) :=
+  match l with
+  | [] => Some ([], [])
+  | g :: r =>
+      if negb (can_concat prev seg_end_ (g_seg g)) then Some ([], [])
+      else
+        let dts := seg_off first start_off start g in
+        match ev_parts dts duration (s_tracks first) (g_parts g) 0 with
+        | None => None
+        | Some (evs, sd) =>
+            match ev_rest first start_off start duration (g_seg g) (g_start g + sd) r with
+            | None => None
+            | Some (evs', vis) => Some (evs ++ evs', (g, dts) :: vis)
+            end
+        end
+  end.
+
+Definition ev_all (segs : list gseg) (start duration : Z) : option (list event * list (gseg * Z)) :=
+  match segs with
+  | [] => None
+  | g0 :: rest =>
+      let first := g_seg g0 in
+      let off := g_start g0 - start in
+      match ev_parts off duration (s_tracks first) (g_parts g0) 0 with
+      | None => None
+      | Some (evs, sd) =>
+          match ev_rest first off start duration first (g_start g0 + sd) rest with
+          | None => None
+          | Some (evs', vis) => Some (evs ++ evs', (g0, off) :: vis)
+          end
+      end
+  end.
+
+Lemma mux_rest_ev l : forall m first soff start dur prev se m',
+  mux_rest m first soff start dur prev se l = Ok m' ->
+  exists evs vis, ev_rest first soff start dur prev se l = Some (evs, vis) /\ run_events m evs = Ok m'.
+Proof.
+  induction l as [|g r IH]; intros m first soff start dur prev se m' H.
+  - inversion H; subst. exists [], []. split; reflexivity.
+  - cbn [mux_rest ev_rest] in *. destruct (negb (can_concat prev se (g_seg g))).
+    + inversion H; subst. exists [], []. split; reflexivity.
+    + fold (seg_off first soff start g) in H.
+      destruct (mux_parts m (seg_off first soff start g) dur (s_tracks first) (g_parts g) 0) as [[m1 sd]| |] eqn:Ep;
+        try discriminate. cbn [bind] in H.
+      destruct (mux_parts_ev _ _ _ _ _ _ _ _ Ep) as (evs1 & E1 & R1). rewrite E1.
+      destruct (IH _ _ _ _ _ _ _ _ H) as (evs2 & vis & E2 & R2). rewrite E2.
+      exists (evs1 ++ evs2), ((g, seg_off first soff start g) :: vis). split; [reflexivity|].
+      rewrite run_events_app, R1. exact R2.
+Qed.
+
+Lemma seek_and_mux_ev segs start dur m :
+  seek_and_mux segs start dur = Ok m ->
+  exists g0 rest evs vis m0, segs = g0 :: rest /\ ev_all segs start dur = Some (evs, vis) /\
+    run_events (mux_init (s_tracks (g_seg g0))) evs = Ok m0 /\ inner_flush true m0 = Ok m.
+Proof.
+  unfold seek_and_mux, ev_all. destruct segs as [|g0 rest]; [discriminate|].
+  destruct (mux_parts (mux_init (s_tracks (g_seg g0))) (g_start g0 - start) dur (s_tracks (g_seg g0)) (g_parts g0) 0)
+    as [[m1 sd]| |] eqn:Ep; try discriminate. cbn [bind].
+  destruct (mux_parts_ev _ _ _ _ _ _ _ _ Ep) as (evs1 & E1 & R1). rewrite E1.
+  destruct (mux_rest m1 (g_seg g0) (g_start g0 - start) start dur (g_seg g0) (g_start g0 + sd) rest) as [m2| |] eqn:Er;
+    try discriminate. cbn [bind]. intros Hf.
+  destruct (mux_rest_ev _ _ _ _ _ _ _ _ _ Er) as (evs2 & vis & E2 & R2). rewrite E2.
+  exists g0, rest, (evs1 ++ evs2), ((g0, g_start g0 - start) :: vis), m2.
+  repeat split; try reflexivity; [|exact Hf]. rewrite run_events_app, R1. exact R2.
+Qed.
+
+(* ------------------------------------------------------------------ the writes of one track *)
+
+Fixpoint wev (id : Z) (evs : list event) : list (sample * Z) :=
+  match evs with
+  | [] => []
+  | (tr, W dts s) :: r => if tr =? id then (s, dts) :: wev id r else wev id r
+  | (_, Fin _) :: r => wev id r
+  end.
+
+Lemma wev_app id a b : wev id (a ++ b) = wev id a ++ wev id b.
+Proof.
+  induction a as [|[tr [dts s|dts]] r IH]; [reflexivity| |]; cbn [app wev]; [|exact IH].
+  destruct (tr =? id); [cbn [app]; f_equal|]; exact IH.
+Qed.
+
+Definition afold (rows : list (sample * Z)) (a : astate) : astate :=
+  fold_left (fun a x => a_write (snd x) (fst x) a) rows a.
+
+Lemma aall_track id evs : forall A, aall A evs id = afold (wev id evs) (A id).
+Proof.
+  induction evs as [|[tr [dts s|dts]] r IH]; intros A; [reflexivity| |]; cbn [aall wev]; [|apply IH].
+  rewrite IH. unfold upd. rewrite (Z.eqb_sym id tr). destruct (tr =? id) eqn:E; [|reflexivity].
+  assert (tr = id) by lia. subst tr. reflexivity.
+Qed.
+
+Fixpoint steps_ok_rows (a : astate) (rows : list (sample * Z)) : Prop :=
+  match rows with
+  | [] => True
+  | x :: r => step_ok a (snd x) /\ steps_ok_rows (a_write (snd x) (fst x) a) r
+  end.
+
+Lemma ev_ok_tracks evs : forall A, (forall id, steps_ok_rows (A id) (wev id evs)) -> ev_ok A evs.
+Proof.
+  induction evs as [|[tr [dts s|dts]] r IH]; intros A H; [exact I| |].
+  - cbn [ev_ok]. pose proof (H tr) as Htr. cbn [wev] in Htr. rewrite Z.eqb_refl in Htr. cbn [steps_ok_rows fst snd] in Htr.
+    destruct Htr as (H1 & H2). split; [exact H1|]. apply IH. intros id. unfold upd.
+    destruct (id =? tr) eqn:E.
+    + assert (id = tr) by lia. subst id. exact H2.
+    + specialize (H id). cbn [wev] in H. rewrite (Z.eqb_sym tr id), E in H. exact H.
+  - cbn [ev_ok]. apply IH. intros id. exact (H id).
+Qed.
+
+(* decode times that never go back and advance by less than 2^32 *)
+Fixpoint steps_sorted (l : list Z) : Prop :=
+  match l with
+  | a :: ((b :: _) as r) => a <= b < a + two32 /\ steps_sorted r
+  | _ => True
+  end.
+
+Lemma steps_sorted_tail a l : steps_sorted (a :: l) -> steps_sorted l.
+Proof. destruct l; simpl; tauto. Qed.
+
+Lemma steps_sorted_le a l : steps_sorted (a :: l) -> forall y, In y l -> a <= y.
+Proof.
+  revert a. induction l as [|b r IH]; intros a H y Hin; [destruct Hin|].
+  simpl in H. destruct H as (H1 & H2). destruct Hin as [<-|Hin]; [lia|].
+  specialize (IH b H2 y Hin). lia.
+Qed.
+
+Lemma steps_sorted_app a b : steps_sorted (a ++ b) -> steps_sorted a /\ steps_sorted b.
+Proof.
+  induction a as [|x a IH]; intros H; [split; [exact I|exact H]|].
+  destruct (IH (steps_sorted_tail _ _ H)) as (H1 & H2). split; [|exact H2].
+  destruct a as [|y a']; [exact I|]. simpl in H |- *. split; [tauto|exact H1].
+Qed.
+
+Lemma steps_vis rows : forall r last, 0 <= last ->
+  steps_sorted (last :: map snd rows) -> steps_ok_rows (AVis r last) rows.
+Proof.
+  induction rows as [|[s t] rows IH]; intros r last Hl H; [exact I|].
+  cbn [steps_ok_rows step_ok fst snd]. cbn [map snd] in H. destruct H as (H1 & H2).
+  split; [exact H1|]. unfold a_write. assert (E : (0 <=? t) = true) by lia. rewrite E.
+  apply IH; [lia|exact H2].
+Qed.
+
+Lemma steps_pre rows : forall pre, steps_sorted (map snd rows) -> steps_ok_rows (APre pre) rows.
+Proof.
+  induction rows as [|[s t] rows IH]; intros pre H; [exact I|].
+  cbn [steps_ok_rows step_ok fst snd]. split; [exact I|]. unfold a_write.
+  destruct (0 <=? t) eqn:E.
+  - apply steps_vis; [lia|exact H].
+  - apply IH. exact (steps_sorted_tail _ _ H).
+Qed.
+
+(* ------------------------------------------------------------------ which samples are written *)
+
+Fixpoint take_lt (d : Z) (l : list (sample * Z)) : list (sample * Z) :=
+  match l with
+  | [] => []
+  | x :: r => if snd x >=? d then [] else x :: take_lt d r
+  end.
+
+Lemma ev_entries_w id tr l : forall dts d,
+  wev id (fst (fst (ev_entries tr dts d l))) = (if tr =? id then take_lt d (flat_samples dts l) else []) /\
+  snd (ev_entries tr dts d l) = existsb (fun x => d <=? snd x) (flat_samples dts l).
+Proof.
+  induction l as [|e r IH]; intros dts d.
+  - cbn. destruct (tr =? id); split; reflexivity.
+  - cbn [ev_entries flat_samples take_lt existsb snd].
+    destruct (dts >=? d) eqn:E.
+    + cbn [fst snd wev]. assert (E2 : (d <=? dts) = true) by lia. rewrite E2. destruct (tr =? id); split; reflexivity.
+    + destruct (IH (dts + sm_dur e) d) as (IH1 & IH2).
+      destruct (ev_entries tr (dts + sm_dur e) d r) as [[evs dts'] b]. cbn [fst snd] in *.
+      cbn [wev]. rewrite IH1, IH2. assert (E2 : (d <=? dts) = false) by lia. rewrite E2.
+      destruct (tr =? id); split; reflexivity.
+Qed.
+
+(* the recorded samples of one track in a traf / a part, with decode times relative to the requested start *)
+Definition traf_rows (id ts off : Z) (tf : traf) : list (sample * Z) :=
+  if tf_track tf =? id then flat_samples (tf_base tf + go_to_mp4 off ts) (tf_samples tf) else [].
+Definition part_rows (id ts off : Z) (p : part) : list (sample * Z) := flat_map (traf_rows id ts off) p.
+
+(* a traf holds a sample at or after the end of the window *)
+Definition traf_hits (off dur : Z) (tracks : list trackdesc) (tf : traf) : bool :=
+  match find_ts (tf_track tf) tracks with
+  | Some ts => existsb (fun x => go_to_mp4 dur ts <=? snd x)
+                       (flat_samples (tf_base tf + go_to_mp4 off ts) (tf_samples tf))
+  | None => false
+  end.
+
+(* the parts of a segment that are read: up to and including the first one in which some track reaches the end *)
+Fixpoint read_parts (off dur : Z) (tracks : list trackdesc) (ps : list part) : list part :=
+  match ps with
+  | [] => []
+  | p :: r => p :: (if existsb (traf_hits off dur tracks) p then [] else read_parts off dur tracks r)
+  end.
+
+Lemma find_ts_eq id id' tracks : id' = id -> find_ts id' tracks = find_ts id tracks.
+Proof. intros ->. reflexivity. Qed.
+
+Lemma ev_traf_w id ts off dur tracks tf evs el b :
+  find_ts id tracks = Some ts -> ev_traf off dur tracks tf = Some (evs, el, b) ->
+  wev id evs = take_lt (go_to_mp4 dur ts) (traf_rows id ts off tf) /\ b = traf_hits off dur tracks tf.
+Proof.
+  intros Hts. unfold ev_traf, traf_rows, traf_hits.
+  destruct (find_ts (tf_track tf) tracks) as [ts'|] eqn:Ef; [|discriminate].
+  destruct (ev_entries_w id (tf_track tf) (tf_samples tf) (tf_base tf + go_to_mp4 off ts') (go_to_mp4 dur ts')) as (E1 & E2).
+  destruct (ev_entries (tf_track tf) (tf_base tf + go_to_mp4 off ts') (go_to_mp4 dur ts') (tf_samples tf)) as [[evs0 dts] b0].
+  cbn [fst snd] in E1, E2. intros H. inversion H; subst evs el b. clear H.
+  rewrite wev_app. cbn [wev]. rewrite app_nil_r, E1. split; [|exact E2].
+  destruct (tf_track tf =? id) eqn:E; [|reflexivity].
+  assert (tf_track tf = id) by lia. rewrite (find_ts_eq id (tf_track tf) tracks H) in Ef. rewrite Hts in Ef.
+  inversion Ef; subst ts'. reflexivity.
+Qed.
+
+Lemma ev_part_w id ts off dur tracks p : forall sd brk evs sd' b,
+  find_ts id tracks = Some ts -> ev_part off dur tracks p sd brk = Some (evs, sd', b) ->
+  wev id evs = flat_map (fun tf => take_lt (go_to_mp4 dur ts) (traf_rows id ts off tf)) p /\
+  b = brk || existsb (traf_hits off dur tracks) p.
+Proof.
+  induction p as [|tf r IH]; intros sd brk evs sd' b Hts H.
+  - inversion H; subst. split; [reflexivity|rewrite orb_false_r; reflexivity].
+  - cbn [ev_part] in H. destruct (ev_traf off dur tracks tf) as [[[evs1 el] b1]|] eqn:Et; [|discriminate].
+    destruct (ev_part off dur tracks r (if el >? sd then el else sd) (brk || b1)) as [[[evs2 sd2] b2]|] eqn:Ep; [|discriminate].
+    inversion H; subst evs sd' b. clear H.
+    destruct (ev_traf_w id ts off dur tracks tf evs1 el b1 Hts Et) as (A1 & A2).
+    destruct (IH _ _ _ _ _ Hts Ep) as (B1 & B2).
+    rewrite wev_app, A1, B1. split; [reflexivity|]. rewrite B2, A2. cbn [existsb]. rewrite orb_assoc. reflexivity.
+Qed.
+
+Lemma ev_parts_w id ts off dur tracks ps : forall sd evs sd',
+  find_ts id tracks = Some ts -> ev_parts off dur tracks ps sd = Some (evs, sd') ->
+  wev id evs = flat_map (flat_map (fun tf => take_lt (go_to_mp4 dur ts) (traf_rows id ts off tf)))
+                        (read_parts off dur tracks ps).
+Proof.
+  induction ps as [|p r IH]; intros sd evs sd' Hts H.
+  - inversion H; subst. reflexivity.
+  - cbn [ev_parts read_parts] in *.
+    destruct (ev_part off dur tracks p sd false) as [[[evs1 sd1] b1]|] eqn:Ep; [|discriminate].
+    destruct (ev_part_w id ts off dur tracks p _ _ _ _ _ Hts Ep) as (A1 & A2). cbn [orb] in A2. rewrite <- A2.
+    destruct b1.
+    + inversion H; subst. cbn [flat_map]. rewrite app_nil_r. exact A1.
+    + destruct (ev_parts off dur tracks r sd1) as [[evs2 sd2]|] eqn:Er; [|discriminate].
+      inversion H; subst. cbn [flat_map]. rewrite wev_app, A1, (IH _ _ _ Hts Er). reflexivity.
+Qed.
+
+Definition seg_taken (id ts dur : Z) (tracks : list trackdesc) (x : gseg * Z) : list (sample * Z) :=
+  flat_map (flat_map (fun tf => take_lt (go_to_mp4 dur ts) (traf_rows id ts (snd x) tf)))
+           (read_parts (snd x) dur tracks (g_parts (fst x))).
+
+Lemma ev_rest_w id ts l : forall first soff start dur prev se evs vis,
+  find_ts id (s_tracks first) = Some ts ->
+  ev_rest first soff start dur prev se l = Some (evs, vis) ->
+  wev id evs = flat_map (seg_taken id ts dur (s_tracks first)) vis.
+Proof.
+  induction l as [|g r IH]; intros first soff start dur prev se evs vis Hts H.
+  - inversion H; subst. reflexivity.
+  - cbn [ev_rest] in H. destruct (negb (can_concat prev se (g_seg g))).
+    + inversion H; subst. reflexivity.
+    + destruct (ev_parts (seg_off first soff start g) dur (s_tracks first) (g_parts g) 0) as [[evs1 sd]|] eqn:Ep; [|discriminate].
+      destruct (ev_rest first soff start dur (g_seg g) (g_start g + sd) r) as [[evs2 vis2]|] eqn:Er; [|discriminate].
+      inversion H; subst. cbn [flat_map]. rewrite wev_app, (IH _ _ _ _ _ _ _ _ Hts Er).
+      f_equal. unfold seg_taken. cbn [fst snd]. apply (ev_parts_w id ts _ dur _ _ _ _ _ Hts Ep).
+Qed.
+
+Lemma ev_all_w id ts segs start dur evs vis g0 rest :
+  segs = g0 :: rest -> find_ts id (s_tracks (g_seg g0)) = Some ts ->
+  ev_all segs start dur = Some (evs, vis) ->
+  wev id evs = flat_map (seg_taken id ts dur (s_tracks (g_seg g0))) vis.
+Proof.
+  intros -> Hts. unfold ev_all.
+  destruct (ev_parts (g_start g0 - start) dur (s_tracks (g_seg g0)) (g_parts g0) 0) as [[evs1 sd]|] eqn:Ep; [|discriminate].
+  destruct (ev_rest (g_seg g0) (g_start g0 - start) start dur (g_seg g0) (g_start g0 + sd) rest) as [[evs2 vis2]|] eqn:Er;
+    [|discriminate].
+  intros H. inversion H; subst. cbn [flat_map]. rewrite wev_app, (ev_rest_w id ts _ _ _ _ _ _ _ _ _ Hts Er).
+  f_equal. unfold seg_taken. cbn [fst snd]. apply (ev_parts_w id ts _ dur _ _ _ _ _ Hts Ep).
+Qed.
+
+(* ------------------------------------------------------------------ sorted decode times: taking = filtering *)
+
+Definition lt_d (d : Z) (x : sample * Z) : bool := snd x <? d.
+
+Lemma take_lt_filter d l : steps_sorted (map snd l) -> take_lt d l = filter (lt_d d) l.
+Proof.
+  induction l as [|x r IH]; intros H; [reflexivity|].
+  cbn [take_lt filter]. unfold lt_d at 1. destruct (snd x >=? d) eqn:E.
+  - assert (E2 : (snd x <? d) = false) by lia. rewrite E2.
+    assert (Hall : forall y, In y r -> lt_d d y = false).
+    { intros y Hy. cbn [map] in H. pose proof (steps_sorted_le _ _ H (snd y) (in_map snd _ _ Hy)). unfold lt_d. lia. }
+    clear -Hall. induction r as [|y r IH]; [reflexivity|]. cbn [filter]. rewrite (Hall y (or_introl eq_refl)).
+    apply IH. intros z Hz. apply Hall. right. exact Hz.
+  - assert (E2 : (snd x <? d) = true) by lia. rewrite E2. f_equal. apply IH. exact (steps_sorted_tail _ _ H).
+Qed.
+
+Lemma flat_map_taken {A} (f g : A -> list (sample * Z)) d l :
+  (forall x, In x l -> steps_sorted (map snd (f x)) -> g x = filter (lt_d d) (f x)) ->
+  steps_sorted (map snd (flat_map f l)) -> flat_map g l = filter (lt_d d) (flat_map f l).
+Proof.
+  induction l as [|x r IH]; intros Hg H; [reflexivity|].
+  cbn [flat_map] in *. rewrite map_app in H. destruct (steps_sorted_app _ _ H) as (H1 & H2).
+  rewrite filter_app, (Hg x (or_introl eq_refl) H1), IH; [reflexivity| |exact H2].
+  intros y Hy. apply Hg. right. exact Hy.
+Qed.
+
+(* all recorded samples of the track in the parts that are read, over the segments that are played *)
+Definition seg_rows (id ts dur : Z) (tracks : list trackdesc) (x : gseg * Z) : list (sample * Z) :=
+  flat_map (part_rows id ts (snd x)) (read_parts (snd x) dur tracks (g_parts (fst x))).
+Definition read_rows (id ts dur : Z) (tracks : list trackdesc) (vis : list (gseg * Z)) : list (sample * Z) :=
+  flat_map (seg_rows id ts dur tracks) vis.
+
+Lemma taken_rows id ts dur tracks vis :
+  steps_sorted (map snd (read_rows id ts dur tracks vis)) ->
+  flat_map (seg_taken id ts dur tracks) vis = filter (lt_d (go_to_mp4 dur ts)) (read_rows id ts dur tracks vis).
+Proof.
+  unfold read_rows. apply flat_map_taken. intros x _ Hx.
+  unfold seg_taken, seg_rows in *. apply flat_map_taken; [|exact Hx]. intros p _ Hp.
+  unfold part_rows in *. apply flat_map_taken; [|exact Hp]. intros tf _ Htf.
+  apply take_lt_filter. exact Htf.
+Qed.
+
+(* ------------------------------------------------------------------ what the muxer makes of sorted writes *)
+
+Definition pre_fold (pre : list sample) (l : list sample) : list sample :=
+  fold_left (fun pre s => if sm_sync s then [strip s] else pre ++ [strip s]) l pre.
+
+(* the pre-roll kept from the samples before the requested start (oldest first) *)
+Definition preroll (neg : list sample) : list sample := pre_fold [] neg.
+
+Definition neg_t (x : sample * Z) : bool := snd x <? 0.
+Definition vis_t (x : sample * Z) : bool := 0 <=? snd x.
+
+Definition expected_rows (rows : list (sample * Z)) : list (sample * Z) :=
+  match filter vis_t rows with
+  | [] => []
+  | (s0, t0) :: _ =>
+      map (fun p => (p, t0)) (if sm_sync s0 then [] else preroll (map fst (filter neg_t rows)))
+      ++ srows (filter vis_t rows)
+  end.
+
+Lemma afold_neg rows : forall pre, (forall x, In x rows -> snd x < 0) ->
+  afold rows (APre pre) = APre (pre_fold pre (map fst rows)).
+Proof.
+  induction rows as [|[s t] rows IH]; intros pre H; [reflexivity|].
+  unfold afold, pre_fold in *. cbn [fold_left map fst snd]. unfold a_write at 2.
+  assert (E : (0 <=? t) = false) by (specialize (H (s, t) (or_introl eq_refl)); cbn in H; lia). rewrite E.
+  apply IH. intros x Hx. apply H. right. exact Hx.
+Qed.
+
+Lemma afold_vis rows : forall r last, (forall x, In x rows -> 0 <= snd x) ->
+  aout (afold rows (AVis r last)) = r ++ srows rows.
+Proof.
+  induction rows as [|[s t] rows IH]; intros r last H; [cbn; rewrite app_nil_r; reflexivity|].
+  unfold afold in *. cbn [fold_left fst snd]. unfold a_write at 2.
+  assert (E : (0 <=? t) = true) by (specialize (H (s, t) (or_introl eq_refl)); cbn in H; lia). rewrite E.
+  rewrite IH by (intros x Hx; apply H; right; exact Hx). rewrite <- app_assoc. reflexivity.
+Qed.
+
+Lemma sorted_split rows : steps_sorted (map snd rows) ->
+  rows = filter neg_t rows ++ filter vis_t rows /\
+  (forall x, In x (filter neg_t rows) -> snd x < 0) /\ (forall x, In x (filter vis_t rows) -> 0 <= snd x).
+Proof.
+  intros H. split; [|split].
+  - induction rows as [|x r IH]; [reflexivity|]. cbn [filter]. unfold neg_t at 1, vis_t at 1.
+    destruct (snd x <? 0) eqn:E.
+    + assert (E2 : (0 <=? snd x) = false) by lia. rewrite E2. cbn [app]. f_equal. apply IH. exact (steps_sorted_tail _ _ H).
+    + assert (E2 : (0 <=? snd x) = true) by lia. rewrite E2.
+      assert (Hall : forall y, In y r -> 0 <= snd y).
+      { intros y Hy. cbn [map] in H. pose proof (steps_sorted_le _ _ H (snd y) (in_map snd _ _ Hy)). lia. }
+      assert (Hn : filter neg_t r = []).
+      { clear -Hall. induction r as [|y r IH]; [reflexivity|]. cbn [filter]. unfold neg_t at 1.
+        pose proof (Hall y (or_introl eq_refl)). destruct (snd y <? 0) eqn:E; [lia|].
+        apply IH. intros z Hz. apply Hall. right. exact Hz. }
+      assert (Hv : filter vis_t r = r).
+      { clear -Hall. induction r as [|y r IH]; [reflexivity|]. cbn [filter]. unfold vis_t at 1.
+        pose proof (Hall y (or_introl eq_refl)). destruct (0 <=? snd y) eqn:E; [|lia].
+        f_equal. apply IH. intros z Hz. apply Hall. right. exact Hz. }
+      rewrite Hn, Hv. reflexivity.
+  - intros x Hx. apply filter_In in Hx. unfold neg_t in Hx. lia.
+  - intros x Hx. apply filter_In in Hx. unfold vis_t in Hx. lia.
+Qed.
+
+Lemma afold_app a b st : afold (a ++ b) st = afold b (afold a st).
+Proof. unfold afold. apply fold_left_app. Qed.
+
+Lemma afold_sorted rows : steps_sorted (map snd rows) -> aout (afold rows (APre [])) = expected_rows rows.
+Proof.
+  intros H. destruct (sorted_split rows H) as (Es & Hn & Hv). unfold expected_rows.
+  rewrite Es at 1. rewrite afold_app, (afold_neg _ [] Hn).
+  destruct (filter vis_t rows) as [|[s0 t0] vs] eqn:Ev; [reflexivity|].
+  change (afold ((s0, t0) :: vs) (APre (pre_fold [] (map fst (filter neg_t rows)))))
+    with (afold vs (a_write t0 s0 (APre (pre_fold [] (map fst (filter neg_t rows)))))).
+  unfold a_write. assert (E : (0 <=? t0) = true) by (specialize (Hv (s0, t0) (or_introl eq_refl)); cbn in Hv; lia).
+  rewrite E. rewrite afold_vis by (intros x Hx; apply Hv; right; exact Hx).
+  unfold preroll. rewrite <- app_assoc. reflexivity.
+Qed.
+
+(* the pre-roll is the part of the earlier samples from their last sync sample on (all of them if none is sync) *)
+Lemma preroll_spec l : exists before keep,
+  l = before ++ keep /\ preroll l = map strip keep /\
+  forallb (fun s => negb (sm_sync s)) (tl keep) = true /\
+  (before = [] \/ exists k r, keep = k :: r /\ sm_sync k = true).
+Proof.
+  induction l as [|s l IH] using rev_ind.
+  - exists [], []. repeat split. left. reflexivity.
+  - destruct IH as (before & keep & E & Ep & Hns & Hb).
+    unfold preroll, pre_fold in *. rewrite fold_left_app. cbn [fold_left]. rewrite Ep.
+    destruct (sm_sync s) eqn:Es.
+    + exists l, [s]. repeat split. right. exists s, []. split; [reflexivity|exact Es].
+    + exists before, (keep ++ [s]). split; [rewrite E, app_assoc; reflexivity|]. split; [rewrite map_app; reflexivity|]. split.
+      * destruct keep as [|k r]; [reflexivity|]. cbn [tl app] in *. rewrite forallb_app, Hns. cbn. rewrite Es. reflexivity.
+      * destruct Hb as [Hb|(k & r & Ek & Hk)]; [left; exact Hb|]. right. exists k, (r ++ [s]). split; [rewrite Ek; reflexivity|exact Hk].
+Qed.
+
+(* ------------------------------------------------------------------ /get *)
+
+Lemma take_lt_sorted d l : steps_sorted (map snd l) -> steps_sorted (map snd (take_lt d l)).
+Proof.
+  induction l as [|x r IH]; intros H; [exact I|].
+  cbn [take_lt]. destruct (snd x >=? d); [exact I|].
+  specialize (IH (steps_sorted_tail _ _ H)).
+  destruct r as [|y r']; [exact I|]. cbn [take_lt] in *. destruct (snd y >=? d); [exact I|].
+  cbn [map steps_sorted] in H. destruct H as (H1 & _).
+  change (snd x <= snd y < snd x + two32 /\ steps_sorted (map snd (y :: take_lt d r'))). split; [exact H1|exact IH].
+Qed.
+
+Lemma filter_lt_sorted d l : steps_sorted (map snd l) -> steps_sorted (map snd (filter (lt_d d) l)).
+Proof. intros H. rewrite <- (take_lt_filter d l H). apply take_lt_sorted. exact H. Qed.
+
+Lemma run_events_tracks evs : forall m m' id, run_events m evs = Ok m' -> ~ In id (ids m) -> wev id evs = [].
+Proof.
+  induction evs as [|[tr [dts s|dts]] r IH]; intros m m' id Hr Hid; [reflexivity| |].
+  - cbn [run_events] in Hr. destruct (write_sample (set_cur m tr) dts s) as [m1| |] eqn:Ew; try discriminate.
+    cbn [bind] in Hr. cbn [wev].
+    assert (Htr : In tr (ids m)).
+    { unfold write_sample in Ew. cbn [set_cur m_cur m_tracks] in Ew.
+      destruct (get_track tr (m_tracks m)) as [t|] eqn:Eg; [|discriminate].
+      destruct (get_track_in _ _ _ Eg) as (Hin & <-). unfold ids. apply in_map. exact Hin. }
+    destruct (tr =? id) eqn:E; [exfalso; apply Hid; assert (tr = id) by lia; subst; exact Htr|].
+    apply (IH m1 m' id Hr). rewrite (ids_write _ _ _ _ Ew). exact Hid.
+  - cbn [run_events] in Hr. cbn [wev]. apply (IH _ m' id Hr). rewrite ids_final. exact Hid.
+Qed.
+
+Definition track_ids (tracks : list trackdesc) : list Z := map (fun x => fst (fst x)) tracks.
+
+Lemma find_ts_in tracks id ts c : NoDup (track_ids tracks) -> In (id, ts, c) tracks -> find_ts id tracks = Some ts.
+Proof.
+  induction tracks as [|[[i t] c'] r IH]; intros Hnd Hin; [destruct Hin|].
+  inversion Hnd as [|? ? Hnotin Hnd']; subst. cbn [find_ts]. destruct Hin as [E|Hin].
+  - inversion E; subst. rewrite Z.eqb_refl. reflexivity.
+  - destruct (i =? id) eqn:E.
+    + exfalso. apply Hnotin. assert (i = id) by lia. subst i.
+      change id with (fst (fst (id, ts, c))). apply (in_map (fun x => fst (fst x))). exact Hin.
+    + apply IH; assumption.
+Qed.
+
+Lemma ids_init tracks : ids (mux_init tracks) = track_ids tracks.
+Proof. unfold ids, track_ids. cbn [mux_init m_tracks]. rewrite map_map. apply map_ext. intros [[i ts] c]. reflexivity. Qed.
+
+(* the segments /get plays, each with the offset (ns) of its time zero from the requested start *)
+Definition played (all : list gseg) (start dur : Z) : list (gseg * Z) :=
+  match find_segments g_start all (Some start) (Some (start + dur)) with
+  | Some segs => match ev_all segs start dur with Some (_, vis) => vis | None => [] end
+  | None => []
+  end.
+
+(* the recorder invariant used for /get: per track, decode times never go back (and advance by < 2^32) *)
+Definition tracks_sorted (dur : Z) (tracks : list trackdesc) (vis : list (gseg * Z)) : Prop :=
+  forall id ts c, In (id, ts, c) tracks -> steps_sorted (map snd (read_rows id ts dur tracks vis)).
+
+Theorem get_table all start dur ps g0 off rest :
+  on_get all start dur = Ok ps ->
+  played all start dur = (g0, off) :: rest ->
+  let tracks := s_tracks (g_seg g0) in
+  NoDup (track_ids tracks) ->
+  tracks_sorted dur tracks (played all start dur) ->
+  forall id ts c, In (id, ts, c) tracks ->
+  srows (flat_track id ps) =
+  expected_rows (filter (lt_d (go_to_mp4 dur ts)) (read_rows id ts dur tracks (played all start dur))).
+Proof.
+  intros Hget Hplayed tracks Hnd Hsorted id ts c Hin.
+  unfold on_get in Hget. unfold played in *.
+  destruct (find_segments g_start all (Some start) (Some (start + dur))) as [segs|]; [|discriminate].
+  destruct (seek_and_mux segs start dur) as [m| |] eqn:Es; try discriminate. cbn [bind] in Hget.
+  inversion Hget; subst ps. clear Hget.
+  destruct (seek_and_mux_ev segs start dur m Es) as (g0' & rest' & evs & vis & m0 & Esegs & Eall & Hrun & Hflush).
+  rewrite Eall in *. subst vis.
+  assert (Eg0 : g0' = g0).
+  { subst segs. unfold ev_all in Eall.
+    destruct (ev_parts (g_start g0' - start) dur (s_tracks (g_seg g0')) (g_parts g0') 0) as [[e1 sd]|]; [|discriminate].
+    destruct (ev_rest (g_seg g0') (g_start g0' - start) start dur (g_seg g0') (g_start g0' + sd) rest') as [[e2 v2]|]; [|discriminate].
+    inversion Eall. reflexivity. }
+  subst g0'. fold tracks in Hrun.
+  (* the writes of every track, as a filter of the rows read *)
+  assert (Hw : forall id' ts' c', In (id', ts', c') tracks ->
+            wev id' evs = filter (lt_d (go_to_mp4 dur ts')) (read_rows id' ts' dur tracks ((g0, off) :: rest))).
+  { intros id' ts' c' Hin'. rewrite (ev_all_w id' ts' segs start dur evs _ g0 rest' Esegs (find_ts_in _ _ _ _ Hnd Hin') Eall).
+    apply taken_rows. exact (Hsorted id' ts' c' Hin'). }
+  assert (Hwsorted : forall id', steps_sorted (map snd (wev id' evs))).
+  { intros id'. destruct (in_dec Z.eq_dec id' (track_ids tracks)) as [Hi|Hi].
+    - unfold track_ids in Hi. apply in_map_iff in Hi. destruct Hi as ([[i t] c'] & Ei & Hi). cbn in Ei. subst i.
+      rewrite (Hw id' t c' Hi). apply filter_lt_sorted. exact (Hsorted id' t c' Hi).
+    - rewrite (run_events_tracks evs _ _ id' Hrun); [exact I|]. rewrite ids_init. exact Hi. }
+  pose proof (Inv_init tracks Hnd) as HI0.
+  assert (Hok : ev_ok (fun _ => APre []) evs).
+  { apply ev_ok_tracks. intros id'. apply steps_pre. apply Hwsorted. }
+  pose proof (Inv_run evs _ _ _ HI0 Hok Hrun) as HI.
+  assert (Ht : exists t, In t (m_tracks m0) /\ t_id t = id).
+  { assert (Hi : In id (ids m0)).
+    { rewrite (ids_run evs _ _ Hrun), ids_init. unfold track_ids.
+      change id with (fst (fst (id, ts, c))). apply (in_map (fun x => fst (fst x))). exact Hin. }
+    unfold ids in Hi. apply in_map_iff in Hi. destruct Hi as (t & E & Hi). exists t. split; assumption. }
+  destruct Ht as (t & Ht & <-).
+  rewrite (final_rows m0 _ m t HI Hflush Ht), aall_track, (afold_sorted _ (Hwsorted (t_id t))).
+  rewrite (Hw (t_id t) ts c Hin). reflexivity.
+Qed.
+
+(* the samples of the window, and what precedes them *)
+Definition in_win (d : Z) (x : sample * Z) : bool := (0 <=? snd x) && (snd x <? d).
+
+Lemma filter_filter {A} (f g : A -> bool) l : filter f (filter g l) = filter (fun x => f x && g x) l.
+Proof.
+  induction l as [|x r IH]; [reflexivity|]. cbn [filter]. destruct (g x) eqn:Eg.
+  - cbn [filter]. destruct (f x); cbn [andb]; rewrite IH; reflexivity.
+  - rewrite andb_false_r. exact IH.
+Qed.
+
+Lemma expected_window d rows :
+  expected_rows (filter (lt_d d) rows) =
+  match filter (in_win d) rows with
+  | [] => []
+  | (s0, t0) :: _ =>
+      map (fun p => (p, t0)) (if sm_sync s0 then [] else preroll (map fst (filter neg_t rows)))
+      ++ srows (filter (in_win d) rows)
+  end.
+Proof.
+  unfold expected_rows. rewrite !filter_filter.
+  assert (E1 : filter (fun x => vis_t x && lt_d d x) rows = filter (in_win d) rows) by (apply filter_ext; reflexivity).
+  rewrite E1. destruct (filter (in_win d) rows) as [|[s0 t0] w] eqn:Ew; [reflexivity|].
+  assert (Hd : 0 < d).
+  { assert (Hin : In (s0, t0) (filter (in_win d) rows)) by (rewrite Ew; left; reflexivity).
+    apply filter_In in Hin. unfold in_win in Hin. cbn in Hin. lia. }
+  assert (E2 : filter (fun x => neg_t x && lt_d d x) rows = filter neg_t rows).
+  { apply filter_ext. intros x. unfold neg_t, lt_d. destruct (snd x <? 0) eqn:E; [|reflexivity].
+    cbn [andb]. lia. }
+  rewrite E2. reflexivity.
+Qed.
+
+(* all recorded samples of the track in the segments played, read or not *)
+Definition all_rows (id ts : Z) (vis : list (gseg * Z)) : list (sample * Z) :=
+  flat_map (fun x => flat_map (part_rows id ts (snd x)) (g_parts (fst x))) vis.
+
+(* guard: reading stopped before no sample of this track that lies inside the window *)
+Definition no_cut (id ts dur : Z) (tracks : list trackdesc) (vis : list (gseg * Z)) : Prop :=
+  filter (in_win (go_to_mp4 dur ts)) (read_rows id ts dur tracks vis)
+  = filter (in_win (go_to_mp4 dur ts)) (all_rows id ts vis).
+
+Theorem get_window_partial all start dur ps g0 off rest :
+  on_get all start dur = Ok ps ->
+  played all start dur = (g0, off) :: rest ->
+  let tracks := s_tracks (g_seg g0) in
+  let vis := played all start dur in
+  NoDup (track_ids tracks) -> tracks_sorted dur tracks vis ->
+  forall id ts c, In (id, ts, c) tracks -> no_cut id ts dur tracks vis ->
+  exists pre, srows (flat_track id ps) = pre ++ srows (filter (in_win (go_to_mp4 dur ts)) (all_rows id ts vis))
+              /\ (length pre <= length (filter neg_t (read_rows id ts dur tracks vis)))%nat.
+Proof.
+  intros Hget Hp tracks vis Hnd Hs id ts c Hin Hcut.
+  rewrite (get_table all start dur ps g0 off rest Hget Hp Hnd Hs id ts c Hin), expected_window.
+  fold vis. unfold no_cut in Hcut. fold tracks. rewrite Hcut.
+  destruct (filter (in_win (go_to_mp4 dur ts)) (all_rows id ts vis)) as [|[s0 t0] w]; [exists []; split; [reflexivity|apply Nat.le_0_l]|].
+  eexists. split; [reflexivity|].
+  rewrite map_length. destruct (sm_sync s0); [apply Nat.le_0_l|].
+  destruct (preroll_spec (map fst (filter neg_t (read_rows id ts dur tracks vis)))) as (b & k & E & Ep & _).
+  rewrite Ep, map_length. rewrite <- (map_length fst (filter neg_t (read_rows id ts dur tracks vis))), E, app_length. lia.
+Qed.
+
+Theorem get_preroll all start dur ps g0 off rest :
+  on_get all start dur = Ok ps ->
+  played all start dur = (g0, off) :: rest ->
+  let tracks := s_tracks (g_seg g0) in
+  let vis := played all start dur in
+  NoDup (track_ids tracks) -> tracks_sorted dur tracks vis ->
+  forall id ts c, In (id, ts, c) tracks ->
+  let rows := read_rows id ts dur tracks vis in
+  match filter (in_win (go_to_mp4 dur ts)) rows with
+  | [] => srows (flat_track id ps) = []
+  | (s0, t0) :: _ =>
+      exists before keep,
+        map fst (filter neg_t rows) = before ++ keep /\
+        srows (flat_track id ps) =
+          map (fun p => (strip p, t0)) (if sm_sync s0 then [] else keep) ++ srows (filter (in_win (go_to_mp4 dur ts)) rows) /\
+        forallb (fun s => negb (sm_sync s)) (tl keep) = true /\
+        (before = [] \/ exists k r, keep = k :: r /\ sm_sync k = true)
+  end.
+Proof.
+  intros Hget Hp tracks vis Hnd Hs id ts c Hin rows.
+  rewrite (get_table all start dur ps g0 off rest Hget Hp Hnd Hs id ts c Hin), expected_window.
+  fold vis tracks rows.
+  destruct (filter (in_win (go_to_mp4 dur ts)) rows) as [|[s0 t0] w]; [reflexivity|].
+  destruct (preroll_spec (map fst (filter neg_t rows))) as (b & k & E & Ep & Hns & Hb).
+  exists b, k. split; [exact E|]. split; [|split; assumption].
+  f_equal. destruct (sm_sync s0); [reflexivity|]. rewrite Ep, map_map. reflexivity.
+Qed.
